@@ -474,6 +474,14 @@ def inline_property(repo: Repo, cls_rel: str, cls_name: str, prop: str, recv: st
     return substitute(body[0].value, {"self": ast.parse(recv, mode="eval").body})
 
 
+class CalleeRaised(Unfoldable):
+    """A function specialised inside an expression ended in `raise`: the exception is the expression's outcome."""
+
+    def __init__(self, exc_name):
+        super().__init__(f"callee raises {exc_name}")
+        self.exc_name = exc_name
+
+
 def partial_eval(folder: Folder, func_node: ast.FunctionDef, mod, cls, env: Dict[str, object], local_funcs: Optional[Dict[str, ast.FunctionDef]] = None,
                  depth: int = 0, effects=None, free: Optional[Dict[str, object]] = None):
     """Specialise a small pure function for concrete arguments by folding: ('return', value) | ('raise', name) |
@@ -500,6 +508,8 @@ def partial_eval(folder: Folder, func_node: ast.FunctionDef, mod, cls, env: Dict
                     return node
                 params = [a.arg for a in callee.args.args]
                 r = partial_eval(folder, callee, mod, cls, dict(zip(params, args)), local_funcs, depth + 1, effects, free)
+                if r[0] == "raise":
+                    raise CalleeRaised(r[1])
                 if r[0] == "return" and isinstance(r[1], (int, str, bool, float, type(None), bytes)):
                     return ast.Constant(value=r[1])
             return node
@@ -521,6 +531,8 @@ def partial_eval(folder: Folder, func_node: ast.FunctionDef, mod, cls, env: Dict
                 if nm_ in effects[0] and not c_.keywords:
                     try:
                         effects[1].append((nm_, tuple(fold(a) for a in c_.args)))
+                    except CalleeRaised as e_:
+                        return ("raise", e_.exc_name)
                     except AbsentAttribute:
                         return ("raise", "AttributeError")
                     except Unfoldable as e:
@@ -530,6 +542,8 @@ def partial_eval(folder: Folder, func_node: ast.FunctionDef, mod, cls, env: Dict
                     callee = local_funcs[c_.func.id]
                     try:
                         args = [fold(a) for a in c_.args]
+                    except CalleeRaised as e_:
+                        return ("raise", e_.exc_name)
                     except AbsentAttribute:
                         return ("raise", "AttributeError")
                     except Unfoldable as e:
@@ -541,6 +555,8 @@ def partial_eval(folder: Folder, func_node: ast.FunctionDef, mod, cls, env: Dict
             if isinstance(st, ast.If):
                 try:
                     t = fold(st.test)
+                except CalleeRaised as e_:
+                    return ("raise", e_.exc_name)
                 except AbsentAttribute:
                     return ("raise", "AttributeError")
                 except Unfoldable as e:
@@ -553,6 +569,8 @@ def partial_eval(folder: Folder, func_node: ast.FunctionDef, mod, cls, env: Dict
                     return ("return", None)
                 try:
                     return ("return", fold(st.value))
+                except CalleeRaised as e_:
+                    return ("raise", e_.exc_name)
                 except AbsentAttribute:
                     return ("raise", "AttributeError")
                 except Unfoldable as e:
@@ -567,6 +585,8 @@ def partial_eval(folder: Folder, func_node: ast.FunctionDef, mod, cls, env: Dict
             elif isinstance(st, ast.Assign) and len(st.targets) == 1 and isinstance(st.targets[0], ast.Name):
                 try:
                     env[st.targets[0].id] = fold(st.value)
+                except CalleeRaised as e_:
+                    return ("raise", e_.exc_name)
                 except AbsentAttribute:
                     return ("raise", "AttributeError")
                 except Unfoldable as e:
